@@ -1321,7 +1321,11 @@ func (e *executor) execCli(a opArgs, lean string) string {
 	}
 	if ws, ok := a["words"]; ok {
 		path := filepath.Join(e.tmpdir, "words.txt")
-		os.WriteFile(path, []byte(strings.Join(decList(ws), "\n")+"\n"), 0o644)
+		content := strings.Join(decList(ws), "\n") + "\n"
+		if ft, ok := a["filetext"]; ok {
+			content = decCps(ft) // the file's text as given: any space runs, no final newline added
+		}
+		os.WriteFile(path, []byte(content), 0o644)
 		for i := range argv {
 			argv[i] = strings.Replace(argv[i], "@FILE", path, 1)
 		}
